@@ -339,6 +339,31 @@ pub fn schedule_part(run: &Run) -> Out {
             dcases.push(m);
         }
     }
+    // five columns joined along a tree (seed `C12-union-find-root-memo`: a stale root is only used after a chain
+    // of unions such as 2-3, 0-3, 3-4, 1-4): every spanning tree on the columns 0..5, one row per tree edge with
+    // a 1 in its two columns - connected, so every schedule must return a single block
+    {
+        let pairs: Vec<(usize, usize)> = (0..5).flat_map(|a| (a + 1..5).map(move |b| (a, b))).collect();
+        for mask in 0u32..(1 << pairs.len()) {
+            if mask.count_ones() != 4 {
+                continue;
+            }
+            let edges: Vec<(usize, usize)> = pairs.iter().enumerate().filter(|(k, _)| mask >> k & 1 == 1).map(|(_, e)| *e).collect();
+            // connected?
+            let mut comp: Vec<usize> = (0..5).collect();
+            for _ in 0..5 {
+                for &(a, b) in &edges {
+                    let c = comp[a].min(comp[b]);
+                    comp[a] = c;
+                    comp[b] = c;
+                }
+            }
+            if comp.iter().any(|&c| c != 0) {
+                continue;
+            }
+            dcases.push(RMat::from_fn(4, 5, |i, j| z((edges[i].0 == j || edges[i].1 == j) as i64)));
+        }
+    }
     // wide inputs (a parallel loop may only fork beyond a minimum length, cf. rayon's with_min_len):
     // 17 non-empty columns; column k = e_k, except one column z = e_x + e_y that joins two otherwise
     // unrelated columns x and y.  Every placement x < y < z in thorough, a spread of placements in quick.
